@@ -178,10 +178,15 @@ let handle kind c =
     let final_empty = has_empty !cur.io in
     for tid = 0 to nth - 1 do
       let ikilled = next_bool c in let idone = next_bool c in let iml = next_n c in
+      (* an error comes with what the implementation was seen doing during that call: the number of
+         mappings it created (re-maps, extensions) and whether its CAS on the limit word reserved a record *)
+      let shapes = ref [] in
       let ires = next_list c (fun c -> match next c with
-          | "cell" -> "cell-" ^ hex_of_n (next_n c)
-          | "err" -> "err-" ^ next c
+          | "cell" -> shapes := (0, false) :: !shapes; "cell-" ^ hex_of_n (next_n c)
+          | "err" -> let cls = next c in let maps = next_int c in let reserved = next_bool c in
+            shapes := (maps, reserved) :: !shapes; "err-" ^ cls
           | t -> failwith ("result tag " ^ t)) in
+      let shapes = List.rev !shapes in
       let t = List.nth (Stdlib.snd !st) tid in
       let mres = List.map (function RCell o -> "cell-" ^ hex_of_n o | RFail e -> "err-" ^ fail_class e) t.t_res in
       if not !diverged then begin
@@ -207,9 +212,18 @@ let handle kind c =
           else if not ikilled then begin
             if final_empty then
               prop1 "empty-name" (Printf.sprintf "thread %d: newCounter(n%d) failed (%s) in a file that holds a record with an empty name" tid (int_of_n nm) r)
-            else if r = "err-corrupt" then
-              prop1 "survivor-errcorrupt" (Printf.sprintf "thread %d (not killed): newCounter(n%d) returned errCorrupt (scenario %s; model reason %s)" tid (int_of_n nm) scen
-                                             (match List.nth_opt t.t_res j with Some (RFail e) -> fail_name e | _ -> "?"))
+            else if r = "err-corrupt" then begin
+              (* the known finding has two shapes (C04_failure_shapes): the call had already reserved its
+                 record when it failed (duplicate walk beyond a stale mapping), or it had re-mapped ten
+                 times; any other errCorrupt of a survivor is a different defect *)
+              let (maps, reserved) = List.nth shapes j in
+              let reason = (match List.nth_opt t.t_res j with Some (RFail e) when not !diverged -> fail_name e | _ -> "?") in
+              if reserved || maps >= 10 then
+                prop1 "survivor-errcorrupt" (Printf.sprintf "thread %d (not killed): newCounter(n%d) returned errCorrupt after %s (scenario %s; model reason %s)" tid (int_of_n nm)
+                                               (if reserved then "having reserved its record" else Printf.sprintf "%d re-maps" maps) scen reason)
+              else
+                prop1 "survivor-errcorrupt-early" (Printf.sprintf "thread %d (not killed): newCounter(n%d) returned errCorrupt although it had reserved nothing and re-mapped only %d time(s): it was failed by what the other processes did (scenario %s; model reason %s)" tid (int_of_n nm) maps scen reason)
+            end
             else prop1 "survivor-failed" (Printf.sprintf "thread %d (not killed): newCounter(n%d) returned %s" tid (int_of_n nm) r)
           end) ires
     done;
